@@ -93,14 +93,19 @@ DELETE FROM safe_update
 # for every (recursive) product of a _check_safe-flagged step,
 # AND for the flagged step itself.
 #
-# A product node can be reached through more than one flagged ancestor at once
-# (e.g. Step.detach()/reattach() flags a whole subtree
-# via RECURSIVE_CHECK_WITH_PRODUCTS in step.py),
-# so duplicate rows for the same node id are possible
-# and are resolved with MIN(safe)/MIN(safe_nh):
-# the value derived through a longer (more ancestor-inclusive) chain
-# is always <= the value from a shorter chain,
-# so MIN always recovers the correct, fully-chained answer rather than an arbitrary one.
+# Several steps of one creator chain can be flagged at once
+# (e.g. Step.detach()/reattach()/hold()/release() flag a whole subtree
+# via RECURSIVE_CHECK_WITH_PRODUCTS in step.py).
+# The traversal is therefore seeded only at the topmost flagged step of each chain,
+# i.e. at flagged steps whose creator is not flagged itself:
+# a seed takes the cached _safe/_safe_ignoring_hold of its creator as its starting point,
+# which is only up to date when that creator is not waiting for a recomputation of its own.
+# A flagged step below a flagged creator is reached by the recursion instead.
+# (Seeding at every flagged step and resolving the duplicate rows with MIN
+# keeps a stale 0 of a flagged creator alive in its products,
+# e.g. in the grandchildren of a step that has just released its hold.)
+# Every node has a single creator, so each node is reached along a single path;
+# the MIN(safe)/MIN(safe_nh) aggregation merely keeps the statement robust.
 #
 # `trace` carries four values per node:
 # `safe`/`safe_nh` are that node's own new _safe/_safe_ignoring_hold (what gets written out)
@@ -159,7 +164,7 @@ WITH RECURSIVE trace(i, safe, chain, safe_nh, chain_nh) AS (
     FROM step AS s
     JOIN node AS cnode ON cnode.i = s.node
     LEFT JOIN step AS creator_step ON creator_step.node = cnode.creator
-    WHERE s._check_safe
+    WHERE s._check_safe AND NOT COALESCE(creator_step._check_safe, 0)
 
     UNION ALL
 
